@@ -351,6 +351,7 @@ func init() {
 		// and discards/holds only Dema2.IdlePeriod() positions. When the first DEMA is
 		// the slower one, positions Dema2.idle .. Dema1.idle-1 compare the zero filler
 		// of DEMA1 with real DEMA2 values (Sell for positive prices) instead of Hold.
+		KFHoldOnly: true,
 		KFLen: func(cfg []int, n int) string {
 			if cfg[0] > cfg[1] && n >= 1 {
 				return "KF-C05-Dema-first-dema-slower"
